@@ -104,6 +104,26 @@ func runAcceptCommit(c *Ctx) {
 			return "", false, false
 		}},
 	}}
+	// round 5: a plain copy `w := v` carries v's authentication over to w
+	spec.Vias = append(spec.Vias, Via{StmtIn: func(f *FuncInfo, n ast.Node, has func(id string) bool) (ids []string) {
+		as, ok := n.(*ast.AssignStmt)
+		if !ok || len(as.Lhs) != len(as.Rhs) {
+			return nil
+		}
+		for i := range as.Lhs {
+			w, v := ObjOf(f.Info(), as.Lhs[i]), ObjOf(f.Info(), as.Rhs[i])
+			if w == nil || v == nil || w == v || !isTConn(w.Type()) || !isTConn(v.Type()) {
+				continue
+			}
+			if _, isId := ast.Unparen(as.Rhs[i]).(*ast.Ident); !isId {
+				continue
+			}
+			if has(fmt.Sprintf("auth-ok:%d", spec.objID(v))) {
+				ids = append(ids, fmt.Sprintf("auth-ok:%d", spec.objID(w)))
+			}
+		}
+		return ids
+	}})
 	// a fact about connection v dies when v is assigned again
 	spec.KillMatch = func(f *FuncInfo, n ast.Node, id string) bool {
 		if !strings.HasPrefix(id, "auth-ok:") {
@@ -212,6 +232,45 @@ func runAcceptCommit(c *Ctx) {
 	if nsrc == 0 {
 		c.Bad("source/none", roots[0].Pos(), "found no QUICTransport.Accept / Dial in the receiver's connection intake")
 		return
+	}
+	// (a') round 5: a plain copy `w := v` of a tracked connection into another local of the same function: the connection travels
+	// on under the new name (v's duty ends at the copy, w's begins there)
+	copyOut := map[ast.Node]map[types.Object]bool{}
+	for i := 0; i < len(vars); i++ {
+		cv := vars[i]
+		info := cv.f.Info()
+		cfg := cv.f.CFG()
+		cfg.EachNode(func(r NodeRef) {
+			as, ok := r.Node().(*ast.AssignStmt)
+			if !ok || len(as.Lhs) != len(as.Rhs) {
+				return
+			}
+			for j := range as.Lhs {
+				if _, isId := ast.Unparen(as.Rhs[j]).(*ast.Ident); !isId || ObjOf(info, as.Rhs[j]) != cv.v {
+					continue
+				}
+				w := ObjOf(info, as.Lhs[j])
+				if w == nil || w == cv.v || !isTConn(w.Type()) || w.Pos() < cv.f.Body.Pos() || w.Pos() > cv.f.Body.End() {
+					continue // a store into an outer variable is a sink (sinksOf)
+				}
+				if _, isId := ast.Unparen(as.Lhs[j]).(*ast.Ident); !isId {
+					continue
+				}
+				dup := false
+				for _, o := range vars {
+					if o.f == cv.f && o.v == w {
+						dup = true
+					}
+				}
+				if copyOut[as] == nil {
+					copyOut[as] = map[types.Object]bool{}
+				}
+				copyOut[as][cv.v] = true
+				if !dup {
+					vars = append(vars, connVar{cv.f, w, r, "copy of " + cv.v.Name() + " (" + cv.what + ")"})
+				}
+			}
+		})
 	}
 	// (c) captured by nested literals: each literal below the defining function that mentions v
 	base := len(vars)
@@ -490,7 +549,7 @@ func runAcceptCommit(c *Ctx) {
 			return true
 		})
 		owned := allPathsHit(cfg, cv.start, func(n ast.Node) bool {
-			return sinkNode[n] || isClose(info, n, v) || isDelegation(f, n, v)
+			return sinkNode[n] || isClose(info, n, v) || isDelegation(f, n, v) || copyOut[n][v]
 		}, func(ast.Node) bool { return false })
 		c.Check(owned, "owned/"+key, startPos(f, cv.start), "the connection is closed, handed over or delegated on every path",
 			"a candidate connection ("+cv.what+") can reach the end of "+f.Name+" neither closed nor handed over: it stays open at the sender until the idle timeout")
@@ -663,6 +722,116 @@ func runAcceptCommit(c *Ctx) {
 	}
 	if nloop == 0 {
 		c.Bad("accept-unbounded/none", roots[1].Pos(), "acceptExtraConns has no loop around QUICTransport.Accept")
+	}
+	// (accept-not-blocked) round 5: the goroutine that takes connections off the listener never waits for a peer's authentication
+	// itself: a connection that stays silent (a probe the sender abandoned, a stranger) would hold the next Accept back for the whole
+	// authentication timeout, and the sender's real connection behind it in the queue is admitted only after that
+	authsMemo := map[*FuncInfo]int{}
+	var auths func(g *FuncInfo) bool
+	auths = func(g *FuncInfo) bool {
+		if g == nil || g.Body == nil {
+			return false
+		}
+		if v, ok := authsMemo[g]; ok {
+			return v == 1
+		}
+		authsMemo[g] = 0
+		ginfo := g.Info()
+		hit := false
+		var walk func(n ast.Node) bool
+		walk = func(n ast.Node) bool {
+			switch x := n.(type) {
+			case *ast.FuncLit:
+				return false
+			case *ast.GoStmt:
+				for _, a := range x.Call.Args {
+					ast.Inspect(a, walk)
+				}
+				return false
+			case *ast.CallExpr:
+				if Callee(ginfo, x) == authFn {
+					hit = true
+				} else if fi := p.CalleeInfo(ginfo, x); fi != nil && fi != g && auths(fi) {
+					hit = true
+				} else if lit, ok := ast.Unparen(x.Fun).(*ast.FuncLit); ok && auths(p.LitInfo(lit)) {
+					hit = true
+				}
+			}
+			return !hit
+		}
+		ast.Inspect(g.Body, walk)
+		if hit {
+			authsMemo[g] = 1
+		}
+		return hit
+	}
+	nblk := 0
+	for _, f := range all {
+		info := f.Info()
+		ast.Inspect(f.Body, func(m ast.Node) bool {
+			if lit, ok := m.(*ast.FuncLit); ok && lit != f.Lit {
+				return false
+			}
+			var body *ast.BlockStmt
+			switch s := m.(type) {
+			case *ast.ForStmt:
+				body = s.Body
+			case *ast.RangeStmt:
+				body = s.Body
+			default:
+				return true
+			}
+			accepts := false
+			InspectNoLits(body, func(x ast.Node) bool {
+				if call, ok := x.(*ast.CallExpr); ok {
+					if fn := Callee(info, call); fn != nil && IsFunc(fn, ModulePath+"/internal/transferquic", "QUICTransport.Accept") {
+						accepts = true
+					}
+				}
+				return true
+			})
+			if !accepts {
+				return true
+			}
+			nblk++
+			key := fmt.Sprintf("accept-not-blocked/%s#%d", f.Name, nblk)
+			var blocking *ast.CallExpr
+			var walk func(n ast.Node) bool
+			walk = func(n ast.Node) bool {
+				switch x := n.(type) {
+				case *ast.FuncLit:
+					return false
+				case *ast.GoStmt:
+					for _, a := range x.Call.Args {
+						ast.Inspect(a, walk)
+					}
+					return false
+				case *ast.CallExpr:
+					if blocking != nil {
+						return false
+					}
+					if Callee(info, x) == authFn {
+						blocking = x
+					} else if fi := p.CalleeInfo(info, x); fi != nil && auths(fi) {
+						blocking = x
+					} else if lit, ok := ast.Unparen(x.Fun).(*ast.FuncLit); ok && auths(p.LitInfo(lit)) {
+						blocking = x
+					}
+				}
+				return true
+			}
+			ast.Inspect(body, walk)
+			if blocking != nil {
+				c.Bad(key, blocking.Pos(), "the loop that takes connections off the listener waits for the authentication of each connection itself (`"+types.ExprString(blocking.Fun)+"` is called, not started with go): "+
+					"a connection that stays silent - a probe the sender abandoned in the race, or a stranger - holds the next Accept back for the whole authentication timeout, and the sender's connection behind it is admitted only then")
+			} else {
+				c.OK(key, m.Pos(), "no authentication runs in the accepting goroutine")
+			}
+			return true
+		})
+	}
+	if nblk < 2 {
+		c.Bad("accept-not-blocked/none", roots[0].Pos(), fmt.Sprintf("found %d accept loops under runTransfer / acceptExtraConns, expected the primary and the extra one", nblk))
 	}
 }
 
